@@ -54,6 +54,11 @@ pub fn gen(prop: &str, scen: &str, _k: u64, seed: u64, tier: &str) -> Case {
         "mem.decoder.lzma2" => {
             case.fmt = "lzma2".into();
             case.input = InputSpec::new("text", r_in.urange(0, 30000), r_in.next_u64());
+            if r_in.pct(50) {
+                // several independent units: the properties are decoded again for each of them
+                case.set("multi_unit", 1);
+                case.input.len = 3 * 4096 + r_in.urange(1, 5000);
+            }
         }
         _ => {
             // mem.limit
@@ -135,6 +140,10 @@ fn decoder(case: &Case, data: &[u8], ctx: &mut Ctx) -> Option<Violation> {
     let mut wc = case.clone();
     wc.opt.dict = wc.opt.dict.min(1 << 16);
     wc.opt.preset = None;
+    if case.knob("multi_unit") != 0 {
+        wc.opt.dict = 4096;
+        wc.opt.unit = Some(4096);
+    }
     let stream = prepare_stream(&wc, data).ok()?;
     let mut out = vec![0u8; data.len() + 16];
     let o = &case.opt;
